@@ -136,7 +136,7 @@ class Scheduler:
     def runnable(self):
         out = []
         for w in self.workers:
-            if w.finished or not w.waiting:
+            if w.finished or not w.waiting or getattr(w, "dead", False):
                 continue
             lk = w.blocked_on
             if lk is not None and not (lk.owner is None or (lk.reentrant and lk.owner is w)):
@@ -164,7 +164,7 @@ class Scheduler:
                 self.cv.notify_all()
                 while not ((w.waiting and self.current is None) or w.finished):
                     self.cv.wait()
-        deadlock = any(not w.finished for w in self.workers)
+        deadlock = any(not w.finished and not getattr(w, "dead", False) for w in self.workers)
         for w in self.workers:
             if w.finished:
                 w.thread.join(timeout=5)
